@@ -467,7 +467,9 @@ def run(job, seed):
         # whole rules that are a single non-check token, enforced directly
         # and through references: must deny, never raise
         toks = ['"x"', "'x'", '""', "''", '"a:b"', 'and', 'AND', 'And', 'or',
-                'OR', 'oR', 'not', 'NOT', 'Not', '(', ')', '((', '()']
+                'OR', 'oR', 'not', 'NOT', 'Not', '(', ')', '((', '()',
+                # the two one-character rules side by side are no rule
+                '!@', '@!', '@@', '!!']
         for tok in toks:
             rules = {'w': tok, 'viaref': 'rule:w', 'vianot': 'not rule:w',
                      'viaor': 'rule:w or role:r', 'viaand': '@ and rule:w'}
